@@ -21,7 +21,7 @@ PRE = ('pre', 'code')
 RAW = ('script', 'style')
 VOID = ('br', 'img', 'input', 'hr', 'meta', 'link')
 BLOCK = ('div', 'p', 'ul', 'li', 'section', 'table', 'tr', 'td', 'h1', 'form', 'body', 'blockquote')
-INLINE = ('span', 'b', 'i', 'a', 'em', 'u', 'label')
+INLINE = ('span', 'b', 'i', 'a', 'em', 'u', 'label', 'textarea', 'samp', 'kbd')      # the last three look white-space sensitive but are not exempt
 CLASSES = ('pretty', 'mini', 'slim', 'slimmini')
 
 
